@@ -40,7 +40,7 @@ theorem nullToOptional_hook_cases (bs : List Ty) (i : DisjInfo) (m : Meta) (r : 
   split at h
   · simp at h; exact Or.inl h.symm
   · split at h
-    · cases h
+    · simp at h; exact Or.inl h.symm
     · rename_i t rest hnn
       simp at h
       exact Or.inr ⟨t, mem_nonNullTypes (by rw [hnn]; simp), h.symm⟩
